@@ -193,7 +193,7 @@ class CbmcVariant:
                "-fno-access-control", "-DRKCOMMON_VERIF", "-w", "-rdynamic",
                "-I" + REPO, "-I" + self.work.inc, "-I" + os.path.join(ROOT, "harness")] + \
               ["-D" + d for d in self.defs + u.native_defines] + \
-              [src, os.path.join(HERE, "rt", "native_rt.cpp"), "-o", exe, "-ldl", "-lpthread"]
+              [src, os.path.join(HERE, "rt", "native_rt.cpp"), "-o", exe, "-ldl", "-lpthread"] + list(getattr(u, "native_libs", []))
         rc, so, se, dt = run(cmd, timeout=600)
         if rc != 0:
             raise RuntimeError("native build failed:\n%s" % se[-3000:])
@@ -535,7 +535,7 @@ class _SmtNative:
         exe = self.base + "_native"
         cmd = ["g++", "-std=c++17", "-O1", "-g", "-fsanitize=address,undefined", "-fno-sanitize-recover=undefined", "-fsanitize-recover=address", "-ffp-contract=off",
                "-fno-access-control", "-DRKCOMMON_VERIF", "-w", "-rdynamic", "-I" + REPO, "-I" + self.work.inc, "-I" + os.path.join(ROOT, "harness")] + \
-              ["-D" + d for d in self.defs + u.native_defines] + [os.path.join(ROOT, u.src), os.path.join(HERE, "rt", "native_rt.cpp"), "-o", exe, "-ldl", "-lpthread"]
+              ["-D" + d for d in self.defs + u.native_defines] + [os.path.join(ROOT, u.src), os.path.join(HERE, "rt", "native_rt.cpp"), "-o", exe, "-ldl", "-lpthread"] + list(getattr(u, "native_libs", []))
         rc, so, se, dt = run(cmd, timeout=600)
         if rc != 0:
             raise RuntimeError("native build failed:\n%s" % se[-3000:])
@@ -555,7 +555,8 @@ class PathUnit:
     kind = "path"
 
     def __init__(self, name, src, entries, defines=(), assumptions=(), stubs=(), native_defines=(), clang_flags=(), opaque=(), validate=True, glibcxx_assertions=True,
-                 tolerate=(), replay_repeat=1):
+                 tolerate=(), replay_repeat=1, native_libs=()):
+        self.native_libs = list(native_libs)
         self.tolerate = list(tolerate)
         self.replay_repeat = replay_repeat
         self.name, self.src, self.entries = name, src, entries
